@@ -264,7 +264,7 @@ def uintLit (value : Nat) : BV4 :=
   let width := if (value + 1) % 2^64 = 0 then 64 else log2C (value + 1)
   ofNat width value
 
-/-- digit of a base-`2^bps` literal: `(value, defined)`; any character outside `0-9a-fA-F` (the grammar only admits `x`/`X`
+/-- digit of a base-`2^bps` literal: `(value, defined)`; any character outside `0-9a-fA-F` (the grammar only allows `x`/`X`
     besides the digits) clears DEFINED (`BitVectorState.cpp:199-215`) -/
 def litDigit (bps : Nat) (c : Char) : BV4 :=
   if c.isDigit then ofNat bps (c.toNat - '0'.toNat)
@@ -276,24 +276,23 @@ def litDigit (bps : Nat) (c : Char) : BV4 :=
 def overwrite (v : BV4) (off : Nat) (d : BV4) : BV4 :=
   tab v.length fun i => if off ≤ i ∧ i < off + d.length then d.bit (i - off) else v.bit i
 
-/-- `parseHex(bps, …)` (`BitVectorState.cpp:189-216`): each digit goes through `insertNonStraddling`, which asserts that the
-    digit does not straddle a 64-bit word (`BitVectorState.h:925`) -/
+/-- `parseHex(bps, …)` (`BitVectorState.cpp:189-216`): each digit is written with `insert` (which handles a digit that
+    straddles a 64-bit word, as octal digit 21 does) -/
 def parseHexDigits (bps : Nat) (pre : BV4) (digits : List Char) : FE BV4 :=
   let n := digits.length
   let base : FE BV4 :=
     if pre.length = 0 then pure (List.replicate (n * bps) .f)
     else if pre.length ≥ n * bps then pure pre else .error "string UInt constant width is to small for its value"
   base.bind fun start =>
-    (List.range n).foldlM (fun acc i =>
+    pure ((List.range n).foldl (fun acc i =>
       let dstIdx := n - 1 - i
-      if (dstIdx * bps) % 64 + bps > 64 then (.error "E:insertNonStraddling" : FE BV4)
-      else pure (overwrite acc (dstIdx * bps) (litDigit bps (digits.getD i '0')))) start
+      overwrite acc (dstIdx * bps) (litDigit bps (digits.getD i '0'))) start)
 
-/-- `parseDec` (`BitVectorState.cpp:218-230`); the number is read with `strtoull` -/
+/-- `parseDec` (`BitVectorState.cpp:218-236`); the number is read with `strtoull`, values that do not fit 64 bit are rejected -/
 def parseDecDigits (pre : BV4) (digits : List Char) : FE BV4 :=
-  let num := min (digits.foldl (fun a c => a * 10 + (c.toNat - '0'.toNat)) 0) (2^64 - 1)
-  if (num + 1) % 2^64 = 0 then .error "E:Log2C(0)" else
-  let width := log2C (num + 1)
+  let num := digits.foldl (fun a c => a * 10 + (c.toNat - '0'.toNat)) 0
+  if num ≥ 2^64 then .error "decimal UInt literals are limited to 64 bit values" else
+  let width := if num = 2^64 - 1 then 64 else log2C (num + 1)
   let cur : BV4 := if pre.length = 0 then List.replicate width .f else pre
   if cur.length < width then .error "string UInt constant width is to small for its value"
   else pure (overwrite cur 0 (ofNat width num))
